@@ -63,6 +63,11 @@ def check(repo, rep, tier):
     rc.r_heads(m, rep, 'R1.2')
     rc.r_items_immutable(m, rep, 'R1.2')
     head_uniformity(repo, rep)
+    from .. import rules_pyx as rp
+    ti = rp.r_category_table(repo, rep, 'R1.3')
+    rp.r_call_locals(repo, rep, 'R1.3')
+    if ti:
+        rp.r_callbacks(repo, rep, 'R1.3')
     rep.floor('agenda push sites', len(m.sites), 5)
     rep.floor('binary push sites', len(m.by_kind.get('binary', [])), 2)
     rep.note('push_sites', [(s.kind, s.line) for s in m.sites])
